@@ -114,7 +114,7 @@ def session_key_script(rng, blocks):
             k = rbytes(rng, 16)
             for b in blocks:
                 if b["t"] == "cust":
-                    c = refcrc.crc16(bytes(10) + k)
+                    c = refcrc.crc16((bytes.fromhex(b["ck"]) if b["ck"] else bytes(10)) + k)
                 elif b["t"] == "upd":
                     c = refcrc.crc16(k + bytes([b["ver"]]))
                 else:
